@@ -455,6 +455,9 @@ def run(chk):
         oracle_check(chk, entries)
         if violation is None and omp_issue:
             violation = omp_issue
+        exec_issue = omp_exec_check(chk, entries)
+        if violation is None and exec_issue:
+            violation = exec_issue
         uncached = extract(cache=False)
         if json.dumps([(e["codes"], e["ubs"], e["doc"]) for e in uncached]) != \
            json.dumps([(e["codes"], e["ubs"], e["doc"]) for e in entries]):
@@ -603,6 +606,34 @@ def omp_check(chk, entries, names=None, schedules=None, modes=OMP_MODES, setting
     return issue
 
 
+OMP_EXEC = ("x_innerproduct_y", "x_innerproduct_x", "sum_x", "x_plus_y", "inc_a_times_x", "ax_plus_by")
+
+
+def omp_exec_check(chk, entries):
+    """thorough tier: compile the generated OpenMP PSy module (dm off) with gfortran -fopenmp against a mock
+    field API, run with 8 threads on integer-valued data, compare with the documented formula."""
+    from props import c20_fexec
+    names = tuple(n for n in OMP_EXEC if n in X.builtin_map())
+    by_name = {e["name"]: e for e in entries}
+    issue, summary = None, {}
+    for mode, sched in (("do", "none"), ("do", "static"), ("do", "dynamic,2"), ("do-reprod", "none"),
+                        ("paralleldo", "none"), ("paralleldo", "guided,8")):
+        recs = X.build(False, False, names=names, omp=(mode, sched))
+        ents = [by_name[r["name"]] for r in recs]
+        ok, out = c20_fexec.omp_run(X.LAST_GEN["text"], ents)
+        summary[f"{mode}/{sched}"] = "ok" if ok else ("compile-error" if ok is None else "wrong-result")
+        if ok is None:
+            chk.correspondence_broken(f"gfortran -fopenmp could not compile the generated PSy layer ({mode}/{sched})", out, "", "")
+        elif not ok and issue is None:
+            first = next((l for l in out.splitlines() if l.startswith("MISMATCH")), out[-300:])
+            bad = next((e for e in ents if e["case_name"] in first), ents[0])
+            issue = {"builtin": bad["case_name"], "kind": "failing-input", "dm": False, "annexed": False, "openmp": mode,
+                     "omp_schedule": sched, "reprod": mode == "do-reprod", "executed": "gfortran -fopenmp, 8 threads, 300000 DoFs",
+                     "observed": {"why": [first]}, "expected": "documented formula evaluated serially"}
+    chk.cov["openmp_execution"] = summary
+    return issue
+
+
 def oracle_check(chk, entries):
     """gfortran executes the generated loop text; result compared with the twin of the Lean model."""
     from props import c20_fexec
@@ -644,6 +675,76 @@ def oracle_check(chk, entries):
     chk.cov["gfortran_oracle"] = {"cases": len(cases), "disagreements": bad}
 
 
+# ------------------------------------------------------------------------------------------ known-finding scenarios
+_HDR = ("program c20_scn\n use constants_mod, only: r_def\n use field_mod, only: field_type\n implicit none\n"
+        " type(field_type) :: f1, f2, f3\n real(r_def) :: asum, c\n")
+
+
+def _scenario_psy(invoke_args, dm):
+    import tempfile
+    cfg = X._cfg()
+    from psyclone.parse.algorithm import parse
+    from psyclone.psyGen import PSyFactory
+    with tempfile.TemporaryDirectory(prefix="c20_s_") as d:
+        path = os.path.join(d, "a.f90")
+        open(path, "w").write(_HDR + f" call invoke({invoke_args})\nend program c20_scn\n")
+        with X._ParseCache():
+            _, info = parse(path, api="dynamo0.3")
+    old = cfg.distributed_memory
+    cfg.distributed_memory = dm
+    try:
+        return PSyFactory("dynamo0.3", distributed_memory=dm).create(info)
+    finally:
+        cfg.distributed_memory = old
+
+
+def scenario(name):
+    """Multi-built-in / extra-transformation compositions outside the one-built-in-per-loop table.
+    Returns (still_failing, observed text)."""
+    from psyclone.psyir.nodes import Loop
+    from psyclone.transformations import (Dynamo0p3RedundantComputationTrans, Dynamo0p3OMPLoopTrans, OMPParallelTrans)
+    from psyclone.configuration import Config
+    cfg = Config.get()
+    old = cfg.distributed_memory
+    try:
+        if name == "redundant-computation-on-reduction":
+            psy = _scenario_psy("sum_X(asum, f1)", True)
+            cfg.distributed_memory = True
+            loop = psy.invokes.invoke_list[0].schedule.walk(Loop)[0]
+            try:
+                Dynamo0p3RedundantComputationTrans().apply(loop, {"depth": 1})
+            except Exception as err:   # noqa: BLE001  refused = fixed
+                return False, "transformation refused: " + str(err)[:200]
+            stops = [l.strip() for l in str(psy.gen).splitlines() if "loop0_stop =" in l]
+            return any("get_last_dof_halo" in l for l in stops), "; ".join(stops)
+        cfg.distributed_memory = False
+        if name == "private-field-pointer":
+            psy = _scenario_psy("setval_c(f1, c), X_plus_Y(f3, f1, f2)", False)
+        elif name == "reprod-sum-read-in-region":
+            psy = _scenario_psy("sum_X(asum, f1), inc_a_times_X(asum, f2)", False)
+        else:
+            raise common.Infra("C20: unknown scenario " + name)
+        sched = psy.invokes.invoke_list[0].schedule
+        try:
+            for loop in sched.walk(Loop):
+                Dynamo0p3OMPLoopTrans().apply(loop, {"reprod": name == "reprod-sum-read-in-region"})
+            OMPParallelTrans().apply(sched.children)
+            lines = [l.strip() for l in str(psy.gen).splitlines()]
+        except Exception as err:   # noqa: BLE001  refused = fixed
+            return False, "transformation refused: " + str(err)[:200]
+        if name == "private-field-pointer":
+            par = [l for l in lines if l.startswith("!$omp parallel")]
+            bad = [l for l in par if re.search(r"private\([^)]*_data", l)]
+            return bool(bad), "; ".join(par)
+        i_par_end = lines.index("!$omp end parallel")
+        reads = [k for k, l in enumerate(lines) if re.match(r"f2_data\(df\) = asum \*", l)]
+        comb = [k for k, l in enumerate(lines) if X._norm_f(l) == "asum=asum+l_asum(1,th_idx)"]
+        failing = bool(reads and comb and reads[0] < i_par_end < comb[0])
+        return failing, f"'{lines[reads[0]] if reads else ''}' at line {reads[0] if reads else -1} precedes the combining loop at line {comb[0] if comb else -1}"
+    finally:
+        cfg.distributed_memory = old
+
+
 # ------------------------------------------------------------------------------------------ corpus / replay
 def load_corpus():
     d = os.path.join(common.ROOT, "corpus", "C20")
@@ -657,6 +758,11 @@ def load_corpus():
 
 def replay(payload, quiet=False):
     """Re-extract the named built-in from the live tree and re-evaluate the stored input."""
+    if "scenario" in payload:
+        failing, observed = scenario(payload["scenario"])
+        if not quiet:
+            print(f"scenario {payload['scenario']}: {'STILL FAILING' if failing else 'no longer failing'} — {observed}")
+        return 1 if failing else 0
     name = payload.get("builtin")
     if not name:
         if not quiet:
